@@ -34,6 +34,7 @@ func init() {
 
 const modA = `module a { namespace "urn:a"; prefix a;
  identity base; identity one { base base; } identity dup { base base; }
+ typedef idt { type identityref { base base; } }
  container c {
   leaf i8 { type int8; } leaf u64 { type uint64; } leaf i64 { type int64; }
   leaf d { type decimal64 { fraction-digits 2; } } leaf b { type boolean; } leaf e { type empty; }
@@ -47,7 +48,7 @@ const modA = `module a { namespace "urn:a"; prefix a;
  } }`
 const modB = `module b { namespace "urn:b"; prefix b; import a { prefix a; }
  identity two { base a:base; } identity dup { base a:base; }
- augment /a:c { leaf fromb { type string; } leaf idrb { type identityref { base a:base; } } container cb { leaf y { type int8; } } } }`
+ augment /a:c { leaf fromb { type string; } leaf idrb { type identityref { base a:base; } } leaf idrt { type a:idt; } container cb { leaf y { type int8; } } } }`
 
 type D struct {
 	Name   string   `json:"name"`
@@ -82,6 +83,7 @@ func slots() [][]*D {
 		{lf("en", "x")},
 		{lf("idr", "one"), lf("idr", "b:two"), lf("idr", "dup"), lf("idr", "b:dup")},
 		{lf("idrb", "two"), lf("idrb", "a:one"), lf("idrb", "dup"), lf("idrb", "a:dup")},
+		{lf("idrt", "two"), lf("idrt", "a:one"), lf("idrt", "dup"), lf("idrt", "a:dup")}, // identityref through a typedef of the other module
 		{lf("un", "5"), lf("un", "auto")},
 		{lf("ll", "b", "a"), lf("ll", "a"), lf("ll", "z", "y", "x"), lf("ll", "x\\ty", "\\\\")},
 		{lf("ls", "3", "1", "2"), lf("ls", "255")},
